@@ -161,6 +161,11 @@ func runC13(c *mon.Ctx) {
 		cn := canons[(k/(len(kcs)*len(algs)))%len(canons)]
 		kind := outKinds[r.IntN(len(outKinds))]
 		sp := ksp.SP
+		if r.IntN(6) == 0 {
+			// the SP's own clock is years past (or before) the validity of its signing certificate: it signs with it all
+			// the same, so it keeps reporting and publishing it
+			ksp.Clk.Set(now.AddDate(pick(r, []int{12, -12, 30}), 0, 0))
+		}
 		sp.SignAuthnRequests = true
 		sp.SignAuthnRequestsAlgorithm = alg.URI
 		sp.SignAuthnRequestsCanonicalizer = cn.Obj
